@@ -1328,7 +1328,16 @@ fn check_c13_case(st: &mut Stats, case: &Case, sub: &str) {
                                             }
                                             Out::Limit => {}
                                             other => {
-                                                let cls = if pat_has_at(params) { "function/@-capture-in-parameter-list".to_string() } else { format!("extraction-through-the-entry-gives-other-code/{}", sub) };
+                                                let leaks = sigil == "*standard-cl-22*" && (leaks_a_name(&code, &all_names(&case.prog)) || matches!(&other, Out::Val(v) if leaks_a_name(v, &all_names(&case.prog))));
+                                                let cls = if pat_has_at(params) {
+                                                    "function/@-capture-in-parameter-list".to_string()
+                                                } else if leaks {
+                                                    "cl22-frontend-optimiser/variable-replaced-by-its-name".to_string()
+                                                } else if dialect_of(sigil).stepping.map(|s| s >= 23).unwrap_or(false) && text.matches("(x 13)").count() >= 2 && matches!(&other, Out::Err(e) if e.contains("raise")) {
+                                                    "cse/repeated-raise-under-repeated-condition-lifted".to_string()
+                                                } else {
+                                                    format!("extraction-through-the-entry-gives-other-code/{}", sub)
+                                                };
                                                 st.violation(&cls, format!("{} [{}]: path_to_function + rewrite_in_program for the entry of {} on {} gives {}, the function means {}", text, optname, name, argv.short(), other.short(), want.short()), text.len(), replay.clone());
                                             }
                                         },
@@ -1358,6 +1367,9 @@ fn check_c13_case(st: &mut Stats, case: &Case, sub: &str) {
                                 } else if leaks {
                                     // C01's finding F27: the recorded code is the miscompiled code
                                     "cl22-frontend-optimiser/variable-replaced-by-its-name".to_string()
+                                } else if dialect_of(sigil).stepping.map(|s| s >= 23).unwrap_or(false) && text.matches("(x 13)").count() >= 2 && matches!(&other, Out::Err(e) if e.contains("raise")) {
+                                    // C01's finding F32 (same matcher as there): the recorded code is the code CSE produced
+                                    "cse/repeated-raise-under-repeated-condition-lifted".to_string()
                                 } else {
                                     format!("wrong-code/{}", sub)
                                 };
